@@ -89,7 +89,9 @@ def alphabet(ref, task):
             ev.append(("op", h, "append", ("w",)))
     # a mutator that is rejected half-way (valid entries first, then a forbidden value): whatever it leaves in the
     # backend, later reads must show exactly that - not a half-merged in-memory state
-    for h in ref.attached_handles()[:2]:
+    # (not for Zarr: its classes declare no value validator - an object() is not 'forbidden data' there, it simply cannot
+    # be encoded, and what a failed encode leaves in the store is the codec's business)
+    for h in (ref.attached_handles()[:2] if env.family_of(task["cfg"].clsname) != "Zarr" else ()):
         bad = ("#bad", "object")
         if ref.handle_kind(h) == "dict":
             ev.append(("opx", h, "reset", ({"a": 5, "k": 6, "zz": bad},)))
